@@ -355,7 +355,13 @@ def main():
                         seen_keys[key] += 1
                         continue
                     seen_keys[key] = 1
-                    ok, detail, cexp = replay_native(prop, h, o, o.model, os.path.join(ROOT, "replay", pid))
+                    model0 = o.model
+                    if h.get("native_feasible"):
+                        # re-solve under the side conditions that make the counterexample playable natively
+                        m2 = solve.resolve_with(E, o, h["native_feasible"](E), timeout_ms=120000)
+                        if m2 is not None:
+                            model0 = m2
+                    ok, detail, cexp = replay_native(prop, h, o, model0, os.path.join(ROOT, "replay", pid))
                     replayed += 1
                     if ok is False and E.ghost.get("tiebreak"):
                         # the contract stubs leave the order of ties open: look for a tie-free counterexample
